@@ -5,7 +5,8 @@ import random
 from .common import cps
 
 NAMES = ['a', 'b', 'c']
-VALS = ['', 'x', 'y', 'x y', 'xy', 'x-y', 'X', 'y x']
+VALS = ['', 'x', 'y', 'x y', 'xy', 'x-y', 'X', 'y x',
+        'x.y', 'xzy', 'x.y-z', 'xzy-z', 'x+', 'xx', '(x', 'x|y', '[x]', 'x*', '^x', 'x$']      # values with regular-expression metacharacters and their near misses
 TEXTS = ['x', ' ', 'xy', ' \n']
 
 
